@@ -2,15 +2,18 @@
 //! Prints one JSON object; exit status 0 = no failing input found, 1 = failing inputs found, 2 = the harness could not run.
 mod applic;
 mod aspsem;
+mod completion;
 mod crash;
 mod dom;
 mod external;
 mod files;
 mod hteval;
 mod prover;
+mod rt;
 mod simp;
 mod subst;
 mod tff;
+mod tptp;
 mod trans;
 mod verify;
 
@@ -141,6 +144,33 @@ fn run_crash(deep: bool) -> (String, Vec<trans::Failure>) {
     (format!("\"anthem_runs\": {}", runs), fails)
 }
 
+fn run_rt(deep: bool, programs: bool) -> (String, Vec<trans::Failure>) {
+    let mut st = rt::RtStats { texts: 0, accepted: 0, nontrivial: 0, samples: vec![] };
+    let mut fails = Vec::new();
+    if programs { rt::check_programs(deep, &mut st, &mut fails); } else { rt::check_theories(deep, &mut st, &mut fails); }
+    (format!("\"texts\": {}, \"evaluations\": {}, \"distinct_nontrivial\": {}, \"rule\": {}, \"samples\": [{}]", st.texts, st.accepted, st.nontrivial,
+        json_str("texts of the corpora (and every node printed from an accepted text) that the parser accepts; non-trivial = longer than 12 characters or printed differently from the way it was written"),
+        st.samples.iter().map(|s| json_str(s)).collect::<Vec<_>>().join(", ")), fails)
+}
+
+fn run_completion(_deep: bool) -> (String, Vec<trans::Failure>) {
+    let mut st = completion::CStats { programs: 0, interpretations: 0, with_models: 0, samples: vec![] };
+    let mut fails = Vec::new();
+    completion::check(&mut st, &mut fails);
+    (format!("\"programs\": {}, \"evaluations\": {}, \"distinct_nontrivial\": {}, \"rule\": {}, \"samples\": [{}]", st.programs, st.interpretations, st.with_models,
+        json_str("every interpretation of the predicates of each corpus program over the inner values {0,1,2,a}; a program counts as non-trivial if it has a stable model among them"),
+        st.samples.iter().map(|s| json_str(s)).collect::<Vec<_>>().join(", ")), fails)
+}
+
+fn run_tptp(deep: bool) -> (String, Vec<trans::Failure>) {
+    let mut st = tptp::TStats { formulas: 0, evaluations: 0, nontrivial: 0, samples: vec![] };
+    let mut fails = Vec::new();
+    tptp::check(deep, &mut st, &mut fails);
+    (format!("\"formulas\": {}, \"evaluations\": {}, \"distinct_nontrivial\": {}, \"rule\": {}, \"samples\": [{}]", st.formulas, st.evaluations, st.nontrivial,
+        json_str("closed, exactly evaluable formulas of the simplification corpus and 20 hand-written ones (chained comparisons under every connective, the three sorts, #inf/#sup, negative numerals, nested arithmetic), one arity per predicate name; evaluations = (formula, interpretation) pairs; a formula is non-trivial if it is true in some sampled interpretation and false in another"),
+        st.samples.iter().map(|s| json_str(s)).collect::<Vec<_>>().join(", ")), fails)
+}
+
 fn run_trans(deep: bool) -> (String, Vec<trans::Failure>) {
     let corpus = trans::corpus(deep);
     let n_interp = if deep { 160 } else { 40 };
@@ -186,6 +216,10 @@ fn main() {
         "applic" => run_applic(deep),
         "subst" => run_subst(deep),
         "crash" => run_crash(deep),
+        "completion" => run_completion(deep),
+        "tptp" => run_tptp(deep),
+        "rt_programs" => run_rt(deep, true),
+        "rt_theories" => run_rt(deep, false),
         _ => { eprintln!("usage: bounded trans [--deep]"); std::process::exit(2); }
     };
     let harness_broken = fails.iter().any(|f| f.property == "harness");
